@@ -562,7 +562,11 @@ pub fn gen_problem(rng: &mut Rng, cfg: &GenCfg) -> SProblem {
             if cfg.alt_places && rng.chance(1, 3) {
                 places.push(gen_place(rng, cfg.tags.then(|| "b".to_string())));
                 // partly tagged alternatives (told apart by their locations): the tag index must be the place index
-                if places[0].loc != places[1].loc && rng.chance(1, 2) {
+                if places[0].loc != places[1].loc && rng.chance(1, 6) {
+                    // tags are free text: two places of one task may carry the same one (told apart by location)
+                    places[0].tag = Some("same".to_string());
+                    places[1].tag = Some("same".to_string());
+                } else if places[0].loc != places[1].loc && rng.chance(1, 2) {
                     if rng.chance(1, 2) {
                         places[0].tag = None;
                         places[1].tag = Some("b".to_string());
